@@ -221,6 +221,25 @@ func runC06(c *Ctx) {
 				}
 				fn := f.Name()
 				okSite := strings.HasPrefix(fn, "newDoubleSignDataWith") || strings.HasPrefix(fn, "LogAndCheck")
+				if !okSite && !exported(fn) {
+					// an unexported helper all of whose callers are the allowed functions (a block
+					// extracted from them) belongs to them
+					callers, allOK := 0, true
+					for _, g := range c.pkgFuncs("consensus") {
+						for _, cs := range c.calls(g, func(cc *ssa.CallCommon) bool { return cc.StaticCallee() == f }) {
+							_ = cs
+							callers++
+							gn := g.Name()
+							for p := g; p.Parent() != nil; p = p.Parent() {
+								gn = p.Parent().Name()
+							}
+							if !(strings.HasPrefix(gn, "newDoubleSignDataWith") || strings.HasPrefix(gn, "LogAndCheck")) {
+								allOK = false
+							}
+						}
+					}
+					okSite = callers > 0 && allOK
+				}
 				c.check(okSite, "C06.verified-construction", tn+" literal in "+fnName(f), al.Pos(), "constructor or dsmLog", "evidence object built outside the verifying constructors and dsmLog")
 			}
 		}
